@@ -294,4 +294,4 @@ LEVEL_TEXT = ("contract-based, partial: transition chaining (do_action contract 
               "AssociationSocket.send loop against an adversarial socket), life-cycle notifications after their flags (AST scan). Cross-thread "
               "ordering is not decided.")
 LEVEL_NOTE = "level 'other': histories over several threads are outside function contracts."
-TECHNIQUE = "deductive: effect-trace contracts (AST->VC, z3) on do_action, the 28 actions, _decode_pdu, _send/send + exhaustive AST scans"
+TECHNIQUE = 'deductive: effect-trace contracts (AST->VC, z3) on do_action, the 28 actions, _decode_pdu, _send/send, negotiate_release, Association.abort, one reactor iteration and the requestor negotiation site (terminal outcomes once) + exhaustive AST scans of state writers and event trigger sites'
